@@ -204,6 +204,9 @@ enum Req {
     CheckpointReset(Vec<usize>),
     /// alloc_try_with(_mut) and the try_ twins, inherent on Bump and on BumpScope
     TryWith(bool, u64),
+    /// allocate, then grow / grow_zeroed / shrink / deallocate-and-allocate-again, all through the `Allocator`
+    /// implementation of one handle
+    RawSession(Layout, Layout, u8),
 }
 
 #[derive(Clone, Copy, PartialEq, Eq, Debug)]
@@ -464,6 +467,26 @@ where
             };
             (o, format!("checkpoint/reset_to via {}", names[k]))
         }
+        Req::RawSession(l1, l2, kind) => {
+            let names = ["Bump", "&Bump", "BumpScope", "&BumpScope", "&mut BumpScope", "dyn Core", "&mut dyn MutCore"];
+            let k = ep % names.len();
+            let r = guarded(|| match k {
+                0 => raw_session(&side.bump, l1, l2, kind),
+                1 => raw_session(&&side.bump, l1, l2, kind),
+                2 => raw_session(side.bump.as_scope(), l1, l2, kind),
+                3 => raw_session(&side.bump.as_scope(), l1, l2, kind),
+                4 => raw_session(&side.bump.as_mut_scope(), l1, l2, kind),
+                5 => {
+                    let d: &dyn BumpAllocatorCore = side.bump.as_scope();
+                    raw_session(&d, l1, l2, kind)
+                }
+                _ => {
+                    let d: &mut dyn MutBumpAllocatorCore = side.bump.as_mut_scope();
+                    raw_session(&d, l1, l2, kind)
+                }
+            });
+            (out_of(side, r, |x| x), format!("{} via Allocator for {}", ["grow", "grow_zeroed", "shrink", "deallocate+allocate"][kind as usize % 4], names[k]))
+        }
         Req::TryWith(ok, x) => {
             let names = [
                 "Bump::alloc_try_with", "Bump::try_alloc_try_with", "BumpScope::alloc_try_with", "BumpScope::try_alloc_try_with", "Bump::alloc_try_with_mut", "Bump::try_alloc_try_with_mut",
@@ -493,6 +516,31 @@ where
     }
 }
 
+/// `Req::RawSession` through one `Allocator` implementor
+fn raw_session(a: &dyn Allocator, l1: Layout, l2: Layout, kind: u8) -> Result<(NonNull<u8>, usize), AllocError> {
+    let p = a.allocate(l1)?.cast::<u8>();
+    unsafe { p.as_ptr().write_bytes(0x3D, l1.size()) };
+    let (q, n) = unsafe {
+        match kind {
+            0 => (a.grow(p, l1, l2)?.cast::<u8>(), l2.size()),
+            1 => (a.grow_zeroed(p, l1, l2)?.cast::<u8>(), l2.size()),
+            2 => (a.shrink(p, l1, l2)?.cast::<u8>(), l2.size()),
+            _ => {
+                a.deallocate(p, l1);
+                (a.allocate(l2)?.cast::<u8>(), l2.size())
+            }
+        }
+    };
+    // unspecified bytes (fresh block, grown tail) are made equal before the two sides are compared
+    let keep = match kind {
+        0 | 2 => l1.size().min(l2.size()),
+        1 => l2.size(),
+        _ => 0,
+    };
+    unsafe { q.as_ptr().add(keep).write_bytes(0x5C, n - keep) };
+    Ok((q, n))
+}
+
 /// entry points that are only comparable within their group (the `_mut` forms place the value differently)
 fn same_group(req: &Req, e1: usize, e2: usize) -> bool {
     match req {
@@ -516,7 +564,19 @@ fn gen_req(rng: &mut Rng, rem: usize) -> Req {
         })
         .min(6000)
     };
-    match rng.below(32) {
+    match rng.below(35) {
+        32 | 33 | 34 => {
+            let kind = rng.below(4) as u8;
+            let a1 = 1usize << rng.below(6);
+            let a2 = if rng.chance(3, 4) { a1 } else { 1usize << rng.below(6) };
+            let s1 = *rng.pick(&[0, 1, 7, 16, 24, 100, rem / 2, rem.saturating_sub(8), rem]);
+            let s2 = match kind {
+                0 | 1 => s1 + *rng.pick(&[0, 1, 8, 33, rem / 2, rem, rem + 64]),
+                2 => s1 - s1.min(*rng.pick(&[0, 1, 5, 16, s1 / 2, s1])),
+                _ => *rng.pick(&[s1, s1 / 2, s1 + 8, 3]),
+            };
+            Req::RawSession(Layout::from_size_align(s1, a1).unwrap(), Layout::from_size_align(s2, a2).unwrap(), kind)
+        }
         26 | 27 => {
             let n = n_for(rng, 4).min(400);
             let cap = *rng.pick(&[0, n, n / 2, n + 5]);
@@ -618,6 +678,7 @@ fn n_eps(req: &Req) -> usize {
         Req::MutVecSession(..) => 10,
         Req::CheckpointReset(_) => 7,
         Req::TryWith(..) => 8,
+        Req::RawSession(..) => 7,
         Req::TypedLayout(_) => 8,
         _ => 16,
     }
